@@ -161,7 +161,8 @@ func Corpus() *Program {
 		fld("EmbMid", 2, KMessage, ref("EmbMid"), embed(), nonNull()),
 		fld("TwoList", 3, KString, list()))
 	msg("EmbD", nil,
-		fld("EdStr", 1, KString), fld("EdList", 2, KString, list()), fld("EdLeaf", 3, KMessage, ref("Leaf")))
+		fld("EdStr", 1, KString), fld("EdList", 2, KString, list()), fld("EdLeaf", 3, KMessage, ref("Leaf")),
+		fld("EdMap", 4, KString, mapOf()), fld("EdByKey", 5, KMessage, ref("Leaf"), mapOf()))
 	msg("EmbedDeep", nil,
 		fld("Top", 1, KString),
 		fld("EmbD", 2, KMessage, ref("EmbD"), embed()))
@@ -178,6 +179,18 @@ func Corpus() *Program {
 		fld("One", 8, KMessage, ref("NamedLeaf")),
 		fld("Other", 9, KMessage, ref("NamedLeaf"), nonNull()),
 		fld("str_list", 10, KString, list()))
+
+	// attribute names that coincide with names the generated code uses internally (map entry fields,
+	// the placeholder, container members), next to maps and lists of messages
+	msg("Collide", nil,
+		fld("entries", 1, KMessage, ref("Mid"), mapOf()),
+		fld("value", 2, KMessage, ref("Mid")),
+		fld("key", 3, KString),
+		fld("active", 4, KBool),
+		fld("by_name", 5, KMessage, ref("Leaf"), mapOf(), nonNull()),
+		fld("elems", 6, KMessage, ref("Leaf"), list()),
+		fld("attrs", 7, KString, mapOf()),
+		fld("unknown", 8, KBool), fld("null", 9, KString))
 
 	msg("Empties", []string{"Pick"},
 		fld("Label", 1, KString),
@@ -197,7 +210,7 @@ func Corpus() *Program {
 
 	p.Config = Config{
 		Types: []string{"Scalars", "Temporal", "Collections", "Nesting", "Oneofs", "Embedding", "EmbedOneof",
-			"EmbedDeep", "Naming", "Empties", "Sink", "DeepNest", "Interleave",
+			"EmbedDeep", "Naming", "Empties", "Sink", "DeepNest", "Interleave", "Collide",
 			"Leaf", "Mid", "WithOneof", "EmbedTwo"}, // selected types that also occur nested inside other selected types
 		DurationCustomType: DurationCastName,
 		TimeType:           SimTimeType,
